@@ -14,6 +14,7 @@ import (
 	"github.com/ipni/go-libipni/apierror"
 	ingestclient "github.com/ipni/go-libipni/ingest/client"
 	"github.com/ipni/go-libipni/ingest/model"
+	"github.com/libp2p/go-libp2p/core/crypto"
 	"github.com/libp2p/go-libp2p/core/peer"
 	"github.com/libp2p/go-libp2p/core/record"
 	recpb "github.com/libp2p/go-libp2p/core/record/pb"
@@ -57,9 +58,24 @@ func contentAddrs(content string) []string {
 	return reqAddrs
 }
 
+// nestKey signs like the key it wraps, after having run `before`: what happens between a request's payload being encoded
+// and its envelope being sealed.
+type nestKey struct {
+	crypto.PrivKey
+	before func()
+}
+
+func (n nestKey) Sign(b []byte) ([]byte, error) {
+	n.before()
+	return n.PrivKey.Sign(b)
+}
+
 func makeReq(kind, named, content, key, kt string) ([]byte, error) {
+	return makeReqWith(kind, named, content, ids.KeyT(key, kt), kt)
+}
+
+func makeReqWith(kind, named, content string, k crypto.PrivKey, kt string) ([]byte, error) {
 	pid := ids.PeerT(named, kt)
-	k := ids.KeyT(key, kt)
 	if kind == "ingest" {
 		return model.MakeIngestRequest(pid, k, reqMh(content), []byte("ctx-"+content), reqMD, contentAddrs(content))
 	}
@@ -86,7 +102,19 @@ func envOf(data []byte) (*recpb.Envelope, error) {
 func craftReq(rc *reqCase, kt string) ([]byte, error) {
 	c := rc.Case
 	o := other([]string{"P", "Q"}, c.Key)
-	data, err := makeReq(c.Made, c.Named, "c1", c.Key, kt)
+	var data []byte
+	var err error
+	if c.Via == "nested" {
+		// other requests of both kinds, with other contents and by both identities, are made while this one is being signed
+		data, err = makeReqWith(c.Made, c.Named, "c1", nestKey{ids.KeyT(c.Key, kt), func() {
+			for _, kind := range []string{"ingest", "register"} {
+				makeReq(kind, o, "c2", o, kt)
+				makeReq(kind, c.Named, "c2", c.Key, kt)
+			}
+		}}, kt)
+	} else {
+		data, err = makeReq(c.Made, c.Named, "c1", c.Key, kt)
+	}
 	if err != nil {
 		return nil, err
 	}
